@@ -11,11 +11,16 @@ Sub-checks (case kinds):
           interleaving model (`interleave.batch`)
   bind    (b) isolation of bindings: variables / predefined names / functions / builtin names / listeners
           (on, once) of P and a journal listener that edits the argument list it is handed are invisible on a Q
-          created before and a Q created after; one `globals` case: the process-wide interpreter settings read
+          created before and a Q created after; variable / function cases also: P's own outcomes under the name and
+          its other spellings (upper, lower, swapped case, capitalised) before and after ANOTHER parser R registers
+          its own things under those spellings; one `globals` case: the process-wide interpreter settings read
           before, during (from a host function, a listener, a nested evaluation) and after evaluations; oracle only
   sched   (c) threads on distinct parsers under a harness-controlled scheduler: every lexer operation
           (`Lexer.input`, `Lexer.token`) waits for its turn according to the schedule; compared with the Lean
           interleaving model (`interleave.run owned …`)
+  linesched (c) two threads on distinct long-lived parsers at LINE granularity: thread 1 runs under sys.settrace and is
+          held, in turn, at the k-th line event inside the library's own files while the main thread evaluates the
+          other formula completely on another parser; both outcomes against the outcomes alone; oracle only
   stress  (c) free-running threads with a 1 µs switch interval while a further thread constructs parsers; oracle only
   cold    (c) the first evaluations of a fresh interpreter process, on distinct parsers in threads released
           together; oracle only
@@ -126,7 +131,13 @@ RULE = ('(a) nest: all ordered pairs (outer, inner) of a seeded pool of formulas
         'with zero-argument and builtin calls). Q created before P and Q created after the registration: the probe on both, and '
         'on the first once more after P evaluated it, gives the record the first Q gave before the registration (for variable / '
         'function / callVariable that must be #NAME?, for callCellValue / once blank), P\'s listeners are not called by Q, '
-        'get_variable / get_function on Q do not find the binding. '
+        'get_variable / get_function on Q do not find the binding. Variable and function cases (the 4 + 3 names x 2 values) '
+        'go on: `spell` = the distinct ones of the name, its upper-case, lower-case, swapped-case and capitalised form '
+        '(sorted, at most 5); P evaluates every spelling (a function as sp(1,2)) and, for a variable, every sp*2 as well '
+        '(P_spell_before); then ANOTHER parser R, created now, registers under every spelling but the name itself a variable '
+        'holding the text R<i> / a function answering R<i>, and evaluates the first of the forms once; P evaluates all forms '
+        'again (P_spell_after): every record must equal the one before; what P gives for a spelling (the value or #NAME?) is '
+        'not judged, only that it stays. '
         '(c) sched: 2-3 threads, each on its own long-lived parser (thread i always the same one), every Lexer.input/Lexer.token '
         'call (= one step) gated by a schedule (list of thread ids, finished threads skipped, round-robin tail): quick = ALL '
         'interleavings of va*2 | 1/0 (5+5 steps: 252) and of 1 @ | nope (3+3: 20) + 250 x scale seeded schedules (3 threads with '
@@ -137,7 +148,20 @@ RULE = ('(a) nest: all ordered pairs (outer, inner) of a seeded pool of formulas
         '1-3 turns, 30% '
         'cut to a seeded prefix; the step counts come from solo runs on the thread parsers made while the cases are '
         'generated. Oracle: each thread\'s record equals its solo record on that parser; model (interleave.run): the '
-        'tokens each thread fetched. stress (oracle-only): 4 '
+        'tokens each thread fetched. linesched (oracle-only, no model request): LINE_PAIRS = 16 pairs of formulas of '
+        'one shape with different arguments (YEAR, COUNTIF, SUMIF, ROMAN, DAYS, UPPER & LEFT, va*2+A1 | vb*3+B2, wildcard MATCH, '
+        'DEC2HEX, MONTH + DAY, text date + 1, SUM + CB, IF & text, ROUND, TEXTJOIN, AVERAGEIF); quick = 8 seeded pairs, each '
+        'with stride 3 and a seeded phase 0..2 (every third line boundary) + the fixed pair YEAR("2021-03-01") | '
+        'YEAR("2020-01-15") at all boundaries = 9 cases; thorough = all 16 pairs at all boundaries + the fixed pair = 17 cases; '
+        'a pair is swapped with probability 0.5; scale does not change this. run_linesched: f1 on thread parser 0, f2 on thread '
+        'parser 1 (the long-lived parsers of the sched cases), each evaluated once first (= the outcomes alone, so both parsers '
+        'have evaluated their formula before); a counting run of f1 in a thread under sys.settrace gives the number L of line '
+        'events in frames whose code file lies under <repo>/hotxlfp/ (frames of ply, of the standard library and of the harness '
+        'are not traced) and its record must equal the first one; then for k = 1..L (quick: k = phase+1, phase+4, ...) a new '
+        'thread evaluates f1 under the same trace and is held at its k-th line event (it waits for an Event, at most 60 s) while '
+        'the main thread, untraced, evaluates f2 completely; then thread 1 is released and joined; a k the thread does not reach '
+        'is skipped; the record of thread 1 and the record of f2 must equal the ones alone (exactly, type and repr); a case '
+        'stops at its first k with a finding. stress (oracle-only): 4 '
         'free-running threads x 300 (thorough 900) evaluations of that formula set on distinct parsers, switch '
         'interval 1 µs, while '
         'a fifth thread keeps constructing parsers (up to 2000; each construction rebinds ply\'s process-global '
@@ -185,15 +209,24 @@ RULE = ('(a) nest: all ordered pairs (outer, inner) of a seeded pool of formulas
         'search (proof or correspondence broke, no failing input yet): the whole generation again at scale 3, oracle only, until '
         'the first failure. Records are compared exactly (type and repr), only the sheet model comparison has a tolerance. '
         'Time limits are wall-clock (time.time): 180 s per sched case, 120 s stress, 120 s per cold process, '
-        '60 s per other-thread sheet evaluation; exceeded = harness error (exit 2), never a verdict. '
+        '60 s per other-thread sheet evaluation; exceeded = harness error (exit 2), never a verdict (the 60 s waits of a '
+        'linesched run are plain Event / join time-outs: a held thread is released after them and no error is raised). '
         'Non-trivial = nest / sheet: a nested (or other-thread) evaluation actually ran; sched: the effective order switches '
         'threads at least twice; bind: the binding is live on P (P answers differently or its listener was called), globals: at least one snapshot '
-        'was taken during an evaluation; stress, cold: '
+        'was taken during an evaluation; stress, cold, linesched: '
         'always. Bulk counting (weight): a nest / sheet case counts every evaluation (sheet: reference runs included), every run '
-        'with nesting and every model comparison it made; stress counts its evaluations and constructed parsers.')
+        'with nesting and every model comparison it made; stress counts its evaluations and constructed parsers; linesched '
+        'counts 2 evaluations per boundary run + 3 and every boundary run but one as non-trivial input.')
 TRUSTED = ['granularity: the controlled scheduler and the Lean model interleave at lexer operations (Lexer.input / Lexer.token); '
            'interleavings inside these methods (bytecode level) are exercised only by the free-running stress and '
-           'cold-start tests',
+           'cold-start tests; between the two, linesched interleaves at the line events of the library\'s own files (not inside '
+           'ply, so not inside these two methods, and not within a line), one whole evaluation of the other thread per '
+           'boundary, the other parser warm',
+           'linesched: sys.settrace on the thread that evaluates f1 (global tracer returns the local one only for frames '
+           'whose co_filename starts with <repo>/hotxlfp/) delivers the same sequence of line events in every run of f1 on '
+           'that parser, so that the k-th event of the held run is the k-th boundary of the counting run; threading.Event '
+           'holds and releases the thread; the main thread is not traced; tracing does not change what f1 evaluates to '
+           '(checked: the counting run must give the record of the untraced first run)',
            'CPython object internals (GIL atomicity of dict/list operations, copy.copy in Lexer.clone) are not modelled',
            'ply keeps the LR stacks in locals of LRParser.parseopt_notrack; the attributes it leaves on the LRParser object '
            '(token, statestack, symstack, state, errorok) are never read back because p_error always raises - by inspection, '
@@ -248,6 +281,13 @@ ASSUMPTIONS = ['"outcome" = the record returned by Parser.parse, compared exactl
                'merely unchanged for predefined names, builtin names, ranges, callFunction and journal), P\'s '
                'listeners are not called and '
                'get_variable / get_function on Q raise KeyError (an overridden predefined name may keep its own value on Q)',
+               'bind, spellings: isolation holds in both directions and for every spelling: what another parser R registers '
+               'under the upper-case, lower-case, swapped-case or capitalised spelling of a name P has registered, and an '
+               'evaluation on R, leave every outcome of P - under the name as registered and under those spellings - as it '
+               'was; whether P itself treats two spellings as one name is not this property\'s subject',
+               'linesched: "whatever the interleaving" is read at the granularity of source lines of the library too: a '
+               'thread may be suspended between any two lines of hotxlfp\'s own code for as long as another thread needs for a '
+               'complete evaluation on its own parser, and both get what they get alone',
                'bind, journal: the argument list handed to a callFunction listener belongs to that evaluation: a host '
                'that edits it '
                'on P must not change what Q computes (what P itself computes afterwards is not judged)',
